@@ -31,7 +31,9 @@ enum { EV_MISS = 1, EV_USE = 2, EV_ENTER_MOD = 10, EV_EXIT_MOD = 11, EV_ENTER_SI
 #define NSMALL 4
 #define NNTT 64
 
-static MODULE *modBig, *modSmall, *modNtt, *modHuge, *modRec, *modMax;
+static MODULE *modBig, *modSmall, *modNtt, *modHuge, *modRec, *modMax, *mod16;
+static MODULE* modAll[6];
+static const uint64_t nAll[6] = {4, 16, 256, 4096, 16384, 65536};
 static REIM_FFT_PRECOMP* pReimFft;
 static REIM_IFFT_PRECOMP* pReimIfft;
 static CPLX_FFT_PRECOMP* pCplxFft;
@@ -74,11 +76,11 @@ static void* al(size_t n) {
   return p;
 }
 
-#define NOPS 35
+#define NOPS 36
 #define NVAR 3                 // every operation exists in NVAR variants that differ by their data only (op number = base + NOPS * variant)
 #define NOPV (NOPS * NVAR)
 static const int op_class[NOPS] = {0, 0, 0, 0, 0, 0, 0, 0, 0, 0, 0, 0, 0, 0, 1, 1, 1, 1, 1, 1, 1, 1,   // 0: module/table, 1: simple
-                                   0, 0, 0, 0, 0, 0, 0, 0, 0, 0, 0, 0, 0};
+                                   0, 0, 0, 0, 0, 0, 0, 0, 0, 0, 0, 0, 0, 0};
 #define OP_FRESH 29   // every thread runs it first, released together by a barrier: first use of a dimension, side by side  // 22..27: a thread builds its OWN object, uses it and deletes it
 
 // runs operation `op` on private data derived from (gseed, op) only; returns the hash of everything it produced
@@ -146,9 +148,10 @@ static uint64_t run_op(int opv) {
       break;
     }
     case 5: {  // vmp on the small-layout and block-layout modules
-      for (int k = 0; k < 2; ++k) {
-        MODULE* m = k ? modSmall : modBig;
-        const uint64_t n = k ? NSMALL : NBIG, nr = 3, nc = 3;
+      for (int k = 0; k < 4; ++k) {
+        static const int which[4] = {2, 0, 1, 4};      // N = 256, 4, 16, 16384
+        MODULE* m = modAll[which[k]];
+        const uint64_t n = nAll[which[k]], nr = 3, nc = 3;
         int64_t *mat = al(8 * n * nr * nc), *a = al(8 * n * nr);
         VMP_PMAT* pm = al(bytes_of_vmp_pmat(m, nr, nc));
         VEC_ZNX_DFT* d = al(bytes_of_vec_znx_dft(m, nc));
@@ -174,11 +177,9 @@ static uint64_t run_op(int opv) {
       break;
     }
     case 28: {  // large dimensions (three of them), everything in place (coefficient and big-coefficient forms)
-      const MODULE* mods3[3] = {modHuge, modRec, modMax};
-      const uint64_t ns3[3] = {NHUGE, NREC, NMAX};
-      for (int q = 0; q < 3; ++q) {
-        const uint64_t n = ns3[q];
-        const MODULE* md = mods3[q];
+      for (int q = 0; q < 6; ++q) {
+        const uint64_t n = nAll[q];
+        const MODULE* md = modAll[q];
         int64_t* r = al(8 * 2 * n);
         fill_small(r, 2 * n, &s, 60);
         vec_znx_rotate(md, 1234567, r, 2, n, r, 2, n); h = fnv(h, r, 8 * 2 * n);
@@ -436,6 +437,23 @@ static uint64_t run_op(int opv) {
       znx_small_single_product(mo, r, a, b, tmp); h = fnv(h, r, 8 * n);
       free(a); free(b); free(r); free(tmp);
       delete_module_info(mo);
+      {  // own q120 product tables of the three kinds, used at once
+        q120_mat1col_product_baa_precomp* taa = q120_new_vec_mat1col_product_baa_precomp();
+        q120_mat1col_product_bbb_precomp* tbb = q120_new_vec_mat1col_product_bbb_precomp();
+        q120_mat1col_product_bbc_precomp* tbc = q120_new_vec_mat1col_product_bbc_precomp();
+        const uint64_t ell = 33;
+        uint64_t *qx = al(32 * 2 * ell), *qy = al(64 * 4 * ell), *qr = al(32 * 4);
+        for (uint64_t i = 0; i < 4 * 2 * ell; ++i) qx[i] = splitmix(&s);
+        for (uint64_t i = 0; i < 8 * 4 * ell; ++i) qy[i] = splitmix(&s) & 0xFFFFFFFFull;
+        q120_vec_mat1col_product_bbb_avx2(tbb, ell, (q120b*)qr, (q120b*)qx, (q120b*)(qx + 4 * ell)); h = fnv(h, qr, 32);
+        q120_vec_mat1col_product_baa_ref(taa, ell, (q120b*)qr, (q120a*)qy, (q120a*)(qy + 4 * ell)); h = fnv(h, qr, 32);
+        q120_vec_mat1col_product_bbc_ref(tbc, ell, (q120b*)qr, (q120b*)qx, (q120c*)qy); h = fnv(h, qr, 32);
+        q120x2_vec_mat2cols_product_bbc_avx2(tbc, ell, (q120b*)qr, (q120b*)qx, (q120c*)qy); h = fnv(h, qr, 128);
+        free(qx); free(qy); free(qr);
+        q120_delete_vec_mat1col_product_baa_precomp(taa);
+        q120_delete_vec_mat1col_product_bbb_precomp(tbb);
+        q120_delete_vec_mat1col_product_bbc_precomp(tbc);
+      }
       break;
     }
     case 27: {  // own q120 NTT tables
@@ -449,6 +467,26 @@ static uint64_t run_op(int opv) {
       free(v);
       q120_del_ntt_bb_precomp(pn);
       q120_del_intt_bb_precomp(pi);
+      break;
+    }
+    case 35: {  // objects obtained from the library's own allocation functions (128 kB and more each), used and released
+      for (int q = 3; q < 5; ++q) {
+        const uint64_t n = nAll[q];
+        const MODULE* md = modAll[q];
+        VEC_ZNX_DFT* d = new_vec_znx_dft(md, 4);
+        VEC_ZNX_BIG* g = new_vec_znx_big(md, 4);
+        SVP_PPOL* pp = new_svp_ppol(md);
+        VMP_PMAT* pm = new_vmp_pmat(md, 2, 2);
+        int64_t* a = al(8 * n * 4);
+        fill_small(a, 4 * n, &s, 12);
+        svp_prepare(md, pp, a);
+        svp_apply_dft(md, d, 4, pp, a, 4, n);
+        vec_znx_idft_tmp_a(md, g, 4, d, 4); h = fnv(h, g, 8 * n * 4);
+        uint8_t* t1 = al(vmp_prepare_contiguous_tmp_bytes(md, 2, 2));
+        vmp_prepare_contiguous(md, pm, a, 2, 2, t1); h = fnv(h, pm, bytes_of_vmp_pmat(md, 2, 2));
+        free(t1); free(a);
+        delete_vec_znx_dft(d); delete_vec_znx_big(g); delete_svp_ppol(pp); delete_vmp_pmat(pm);
+      }
       break;
     }
     case 34: {  // kernels without any table or module, called directly in their portable and accelerated variants, on private data
@@ -609,6 +647,8 @@ int main(int argc, char** argv) {
   modHuge = new_module_info(NHUGE, FFT64);
   modRec = new_module_info(NREC, FFT64);
   modMax = new_module_info(NMAX, FFT64);
+  mod16 = new_module_info(16, FFT64);
+  modAll[0] = modSmall; modAll[1] = mod16; modAll[2] = modBig; modAll[3] = modHuge; modAll[4] = modRec; modAll[5] = modMax;
   modNtt = new_module_info(NNTT, NTT120);
   pReimFft = new_reim_fft_precomp(32, 0);
   pReimIfft = new_reim_ifft_precomp(32, 0);
